@@ -52,6 +52,7 @@ NONE_OV = z3.Const('no_override', Ov)
 PROPOSAL = z3.Function('PROPOSAL', I, I, Ov)        # (generator epoch, k-th prepare_new_batch call since its creation) -> override
 
 A = z3.And
+PI = 'elfi/methods/inference/parameter_inference.py::ParameterInference.'
 
 
 def forall_id(body):
@@ -68,6 +69,17 @@ def id_scope(x):
     if vc.fin is None:
         return z3.BoolVal(True)
     return z3.And(x >= 0, x < vc.fin_range)
+
+
+def _witness(self, vc, model, ob):
+    """finitised counter-model -> the integer part of the view (a loop-head / call-site state, not an input: the replay searches real schedules)"""
+    out = {}
+    for d in model.decls():
+        n = d.name()
+        if d.arity() == 0 and n.split('!')[0] in ('lo', 'hi', 'next_index', 'num_submissions', 'max_parallel_batches', 'n_batches', 'objective_n_batches', 'round',
+                                                  'objective_round', 'epoch', 'round_start', 'calls', 'task_id', 'next_id', 'rejection_n_batches'):
+            out[n] = str(model[d])
+    return dict(obligation=ob.kind, state=out)
 
 
 # ---------------------------------------------------------------------------------------------- the abstract view
@@ -613,5 +625,1065 @@ class Compute(HandlerContract):
                 ('no task is queued', z3.BoolVal(len(W.events('apply')) == 0 and len(W.events('apply_sync')) == 1))] + same_view(W, old, what='compute changes nothing: ')
 
 
+# ---------------------------------------------------------------------------------------------- constructors: where the preconditions come from
+class HandlerInit(Contract):
+    """BatchHandler.__init__ establishes handler_ok with nothing pending and next index 0"""
+    target = 'elfi/client.py::BatchHandler.__init__'
+    prop = 'C04'
+    fin = 4
+    fin_range = 6
+
+    def __init__(self, client_given):
+        self.client_given = client_given
+        self.label = 'client-given' if client_given else 'default-client'
+
+    def setup(self, vc):
+        W = World(vc)
+        s = NS(W=W, made=[], compiled=[])
+        s.default_client, s.given_client = self._client(s, 'default'), self._client(s, 'given')
+        s.model = make_object('Model', attrs=dict(source_net=make_object('SourceNet')))
+        s.names = make_object('OutputNames')
+        s.me = make_object('BatchHandlerFresh')
+        self._s = s
+        return s, (s.me, s.model, W.ctx), dict(output_names=s.names, client=s.given_client if self.client_given else None)
+
+    def _client(self, s, tag):
+        def compile(self_, source_net, outputs=None):
+            s.compiled.append((self_, source_net, outputs))
+            return s.W.compiled
+        return make_object('Client_' + tag, methods=dict(compile=compile))
+
+    def env(self, vc):
+        s = self._s
+
+        def OrderedDict():
+            s.made.append(1)
+            s.W.lo = s.W.hi = z3.IntVal(0)
+            return ODictRange(s.W)
+        return dict(OrderedDict=OrderedDict, get_client=lambda: s.default_client)
+
+    def ensures(self, s, result):
+        me, W = s.me, s.W
+        c = s.given_client if self.client_given else s.default_client
+        okay = (getattr(me, 'client', None) is c and getattr(me, 'context', None) is W.ctx and getattr(me, 'compiled_net', None) is W.compiled
+                and s.compiled == [(c, s.model.source_net, s.names)] and isinstance(getattr(me, '_pending_batches', None), ODictRange) and len(s.made) == 1)
+        if not okay:
+            return [('the handler stores the given (or the current default) client, the context and the net compiled by that client for the requested outputs; the pending map is a new OrderedDict', z3.BoolVal(False))]
+        W.handler = me
+        return [('the handler stores the given (or the current default) client, the context and the net compiled by that client for the requested outputs; the pending map is a new OrderedDict', z3.BoolVal(True)),
+                ('nothing pending, next index 0: handler_ok', A(W.lo == 0, W.hi == 0, W.nxt == 0))]
+
+
+class SamplerInit(Contract):
+    """ParameterInference.__init__: max_parallel_batches >= 1 on every normal return (the precondition of iterate), a fresh handler, n_batches = 0"""
+    target = PI + '__init__'
+    prop = 'C04'
+    fin = 4
+
+    def __init__(self, given):
+        self.given = given
+        self.label = 'max_parallel_batches-given' if given else 'max_parallel_batches-default'
+
+    def setup(self, vc):
+        s = NS(made=[])
+        s.cores = vc.fresh_int('num_cores', size=True)
+        s.mp = vc.fresh_int('max_parallel_batches', size=True)
+        s.client = make_object('Client', properties=dict(num_cores=lambda self_: SInt(s.cores)))
+        s.model_copy = make_object('ModelCopy')
+        s.model = make_object('Model', attrs=dict(parameter_names=['t']), methods=dict(copy=lambda self_: s.model_copy))
+        s.names = ['d']
+        s.me = make_object('SamplerFresh', methods=dict(_check_outputs=lambda self_, names: names))
+        self._s = s
+        return s, (s.me, s.model, s.names), dict(max_parallel_batches=SInt(s.mp) if self.given else None)
+
+    def env(self, vc):
+        s = self._s
+
+        class NodeReference:
+            pass
+
+        class ComputationContext:
+            def __init__(self_, **kw):
+                s.made.append(('context', self_, kw))
+
+        class BatchHandler:
+            def __init__(self_, model, **kw):
+                s.made.append(('handler', self_, model, kw))
+
+        class ProgressBar:
+            def __init__(self_, **kw):
+                pass
+        elfi = NS(client=NS(get_client=lambda: s.client, BatchHandler=BatchHandler))
+        return dict(NodeReference=NodeReference, ComputationContext=ComputationContext, ProgressBar=ProgressBar, elfi=elfi)
+
+    def requires(self, s):
+        return [s.cores >= 0]
+
+    def _eff(self, s):
+        return z3.If(s.mp != 0, s.mp, s.cores) if self.given else s.cores     # python `or`: a given 0 counts as not given
+
+    def raises(self, s):
+        return {'ValueError': self._eff(s) <= 0}
+
+    def iff_raises(self, s):
+        return [('a sampler is only constructed with max_parallel_batches >= 1', self._eff(s) >= 1)]
+
+    def ensures(self, s, result):
+        me = s.me
+        eff = self._eff(s)
+        hs = [m for m in s.made if m[0] == 'handler']
+        cs = [m for m in s.made if m[0] == 'context']
+        okay = len(hs) == 1 and len(cs) == 1 and getattr(me, 'batches', None) is hs[0][1] and hs[0][2] is s.model_copy and hs[0][3].get('context') is cs[0][1] \
+            and hs[0][3].get('client') is s.client and hs[0][3].get('output_names') is s.names and me.computation_context is cs[0][1]
+        return [('max_parallel_batches is the given value, or the client\'s number of cores, and at least 1', A(T(me.max_parallel_batches) == eff, T(me.max_parallel_batches) >= 1)),
+                ('one fresh BatchHandler on the current client, with one fresh context and the copied model', z3.BoolVal(okay)),
+                ('no batch consumed yet', A(T(me.state['n_batches']) == 0, T(me.state['n_sim']) == 0))]
+
+
+# ---------------------------------------------------------------------------------------------- stubs of the handler operations (callers' side)
+class OvVal:
+    """an opaque override dict returned by prepare_new_batch (its abstract value is the term)"""
+
+    def __init__(self, t):
+        self.t = t
+
+
+def ov_term(batch):
+    if batch is None:
+        return NONE_OV
+    if isinstance(batch, OvVal):
+        return batch.t
+    raise OutOfSubset('override of type %s' % type(batch).__name__)
+
+
+def _pre_handler_ok(W, who):
+    for n, f in handler_ok(W)[:2]:
+        cur().oblige('call-pre[%s: handler_ok: %s]' % (who, n), f)
+
+
+def handler_stubs(W):
+    """submit / wait_next / has_ready / cancel_pending / reset as their contracts (eff_*), proved by the contracts above"""
+
+    def submit(self_, batch=None):
+        vc = cur()
+        vc.libcall('stub:submit', ())
+        _pre_handler_ok(W, 'submit')
+        ov = ov_term(batch)
+        y = vc.fresh_int('task_id', size=True)
+        vc.assume(z3.Not(W.live[y]))
+        W.log.append(('submit', y, ov, W.snap()))
+        eff_submit(W, y, ov)
+
+    def wait_next(self_):
+        vc = cur()
+        vc.libcall('stub:wait_next', ())
+        _pre_handler_ok(W, 'wait_next')
+        vc.oblige('call-pre[wait_next: a batch is pending (it raises ValueError otherwise)]', W.hi > W.lo)
+        W.log.append(('wait_next', W.snap()))
+        b, i = eff_wait_next(W)
+        return SKey(b), SInt(i)
+
+    def has_ready(self_, any=False):
+        vc = cur()
+        if any is not False:
+            raise OutOfSubset('has_ready(any=True) is not under contract')
+        vc.libcall('stub:has_ready', ())
+        _pre_handler_ok(W, 'has_ready')
+        b = vc.fresh('oracle', B)                      # THE ORACLE
+        W.log.append(('has_ready', b))
+        return SBool(has_ready_value(W, b))
+
+    def reset(self_):
+        cur().libcall('stub:reset', ())
+        _pre_handler_ok(W, 'reset')
+        W.log.append(('reset', W.snap()))
+        eff_reset(W)
+
+    return dict(submit=submit, wait_next=wait_next, has_ready=has_ready, cancel_pending=stub_cancel(W), reset=reset)
+
+
+# ---------------------------------------------------------------------------------------------- the sampler side
+
+
+def J(V):
+    """every task issued through this handler that is still in the client is a pending one"""
+    return forall_id(lambda x: z3.Implies(A(V.mine[x], V.live[x]), pend(V, x)))
+
+
+def ovd(kind, rnd, epoch, j):
+    """the override of the j-th batch of the current generator epoch: a function of the sampler state, NOT of the oracle"""
+    if kind == 'rejection':
+        return NONE_OV
+    return z3.If(rnd == 0, NONE_OV, PROPOSAL(epoch, j))
+
+
+class Sampler:
+    """sampler-side state: the dict entries the real code reads (state['n_batches'], state['round'], objective['n_batches']) and
+    the ghost round discipline (generator epoch, round_start = number of batches consumed when it was created, calls =
+    prepare_new_batch calls since), plus the ghost sequence of update calls cons_idx/cons_bat[0:cons_n]."""
+    INTS = ('nb', 'N', 'rnd', 'epoch', 'rs', 'calls', 'cons_n')
+
+    def __init__(self, vc, kind, M):
+        self.kind = kind
+        self.M = M
+        self.state = {'n_batches': SInt(vc.fresh_int('n_batches', size=True)), 'round': SInt(vc.fresh_int('round', size=True))}
+        self.objective = {'n_batches': SInt(vc.fresh_int('objective_n_batches', size=True))}
+        self.epoch, self.rs, self.calls = vc.fresh_int('epoch', size=True), vc.fresh_int('round_start', size=True), vc.fresh_int('calls', size=True)
+        self.cons_n = vc.fresh_int('cons_n', size=True)
+        self.cons_idx, self.cons_bat = vc.fresh('cons_idx', AII), vc.fresh('cons_bat', z3.ArraySort(I, Bat))
+        self.log = []
+
+    nb = property(lambda self: T(self.state['n_batches']), lambda self, v: self.state.__setitem__('n_batches', SInt(v)))
+    rnd = property(lambda self: T(self.state['round']), lambda self, v: self.state.__setitem__('round', SInt(v)))
+    N = property(lambda self: T(self.objective['n_batches']), lambda self, v: self.objective.__setitem__('n_batches', SInt(v)))
+
+    def snap(self):
+        return View(**{k: getattr(self, k) for k in self.INTS + ('cons_idx', 'cons_bat')})
+
+    def _vc_havoc(self, name='hv'):
+        vc = cur()
+        for k in self.INTS:
+            setattr(self, k, vc.fresh_int(k + '_' + name, size=True))
+        self.cons_idx, self.cons_bat = vc.fresh('cons_idx_' + name, AII), vc.fresh('cons_bat_' + name, z3.ArraySort(I, Bat))
+
+
+def discipline(kind, V, S):
+    """the override of pending batch i is the (i - round_start)-th proposal of the current generator epoch"""
+    if kind == 'rejection':
+        return [('no overrides', forall_range(V.lo, V.hi, lambda i: V.ovof[V.ids[i]] == NONE_OV, 'i'))]
+    return [('prepare_new_batch was called once per index submitted since the generator was created', A(S.calls == V.hi - S.rs, S.rs <= V.lo, S.rnd >= 0)),
+            ('pending batch i carries the (i - round_start)-th proposal of the epoch', forall_range(V.lo, V.hi, lambda i: V.ovof[V.ids[i]] == ovd(kind, S.rnd, S.epoch, i - S.rs), 'i'))]
+
+
+def finished(S):
+    return S.N <= S.nb
+
+
+def iterate_pre(kind, V, S):
+    return [('not finished', z3.Not(finished(S))), ('max_parallel_batches >= 1 (checked by the constructor)', S.M >= 1),
+            ('no more than max_parallel_batches pending', V.hi - V.lo <= S.M),
+            ('the oldest pending index is the number of batches consumed so far', V.lo == S.nb)] + handler_ok(V) + [('J', J(V))] + discipline(kind, V, S)
+
+
+def iterate_post(kind, V0, S0, V, S, upd):
+    """upd = (batch term, index term) of THE update call"""
+    out = [('exactly one batch is consumed: the oldest pending index advances by one', A(V.lo == V0.lo + 1, S.nb == S0.nb + 1, V.lo == S.nb)),
+           ('update receives index = number of batches consumed so far', upd[1] == S0.nb),
+           ('update receives EXEC(LOADED(index, override)) with the override a function of the sampler state (no oracle term)',
+            upd[0] == EXEC(LOADED(S0.nb, ovd(kind, S0.rnd, S0.epoch, S0.nb - S0.rs)))),
+           ('never more than max_parallel_batches pending', V.hi - V.lo <= S.M),
+           ('tasks issued through this handler stay marked', forall_id(lambda x: z3.Implies(V0.mine[x], V.mine[x]))),
+           ('J', J(V))] + handler_ok(V)[:2]
+    d = discipline(kind, V, S)
+    if kind == 'rejection':
+        out += d
+    else:
+        out += [('finished or round discipline: ' + n, z3.Or(finished(S), f)) for n, f in d]
+    return out
+
+
+def update_stub(kind, W, S, static_objective=False):
+    """Rejection.update (C01: BaseUpdate counts the batch, _update_objective_n_batches may move the objective; the handler is not
+    touched) / SMC.update (contract SmcUpdate below: additionally, when the round is over, cancel_pending and - unless it was
+    the last round - a new generator epoch starting at the number of batches consumed)"""
+
+    def update(self_, batch, batch_index):
+        vc = cur()
+        vc.libcall('stub:update', ())
+        S.log.append(('update', T(batch), T(batch_index), W.snap(), S.snap()))
+        vc.oblige('call-pre[update: batch_index = number of batches consumed so far]', T(batch_index) == S.nb)
+        S.nb = S.nb + 1
+        if not static_objective:
+            S.N = vc.fresh_int('objective_after_update', size=True)
+        if kind == 'smc':
+            smc_update_effect(vc, W, S)
+    return update
+
+
+def smc_update_effect(vc, W, S):
+    if vc.branch(vc.fresh('round_over', B)):
+        _pre_handler_ok(W, 'cancel_pending')
+        eff_cancel(W)
+        if vc.branch(vc.fresh('more_rounds', B)):
+            S.rnd, S.epoch, S.rs, S.calls = S.rnd + 1, S.epoch + 1, S.nb, z3.IntVal(0)
+        else:
+            vc.assume(finished(S))
+
+
+def prepare_stub(kind, W, S):
+    def prepare_new_batch(self_, batch_index):
+        vc = cur()
+        vc.libcall('stub:prepare_new_batch', ())
+        vc.oblige('call-pre[prepare_new_batch: called with the next index to be submitted]', T(batch_index) == W.nxt)
+        k = S.calls
+        S.calls = S.calls + 1
+        S.log.append(('prepare', T(batch_index)))
+        if vc.branch(S.rnd == 0):
+            return None
+        return OvVal(PROPOSAL(S.epoch, k))
+    return prepare_new_batch
+
+
+def sampler_object(vc, kind, W, S, methods):
+    m = dict(_allow_submit=inline(vc, PI + '_allow_submit'))
+    m.update(methods)
+    props = {p: inline(vc, PI + p) for p in ('finished', '_has_batches_to_submit', '_objective_n_batches')}
+    o = make_object('SamplerUnderContract', attrs=dict(max_parallel_batches=SInt(S.M), batches=W.handler, batch_size=SInt(vc.fresh_int('batch_size', size=True))),
+                    methods=m, properties=props)
+    o.state, o.objective = S.state, S.objective
+    return o
+
+
+class SamplerContract(Contract):
+    prop = 'C04'
+    fin = 4
+    fin_range = 7
+
+    def base(self, vc, kind, static_objective=False):
+        W = World(vc)
+        real_handler(vc, W, stubs=handler_stubs(W))
+        M = vc.fresh_int('max_parallel_batches', size=True)
+        S = Sampler(vc, kind, M)
+        return W, S
+
+    def snapshot(self, s):
+        return dict(W=s.W.snap(), S=s.S.snap())
+
+
+class Iterate(SamplerContract):
+    """loop 0: `while self._allow_submit(self.batches.next_index)` - for ALL oracle answers"""
+    target = PI + 'iterate'
+
+    def __init__(self, kind):
+        self.kind = kind
+        self.label = kind
+
+    def setup(self, vc):
+        W, S = self.base(vc, self.kind)
+        prep = inline(vc, PI + 'prepare_new_batch') if self.kind == 'rejection' else prepare_stub(self.kind, W, S)
+        me = sampler_object(vc, self.kind, W, S, dict(prepare_new_batch=prep, update=update_stub(self.kind, W, S)))
+        return NS(W=W, S=S, me=me), (me,), {}
+
+    def requires(self, s):
+        return iterate_pre(self.kind, s.W, s.S)
+
+    def _inv(self, s, l):
+        W, S, E, ES = s.W, s.S, l.entry.W, l.entry.S
+        return [('nothing is consumed while submitting; never more than max_parallel_batches pending',
+                 A(W.lo == E.lo, W.hi >= E.hi, W.hi - W.lo <= S.M, W.nsub == E.nsub + (W.hi - E.hi), W.rm_n == E.rm_n)),
+                ('sampler state untouched', A(S.nb == ES.nb, S.N == ES.N, S.rnd == ES.rnd, S.epoch == ES.epoch, S.rs == ES.rs, S.cons_n == ES.cons_n)),
+                ('tasks issued through this handler stay marked', forall_id(lambda x: z3.Implies(E.mine[x], W.mine[x]))),
+                ('J', J(W))] + handler_ok(W) + discipline(self.kind, W, S)
+
+    @property
+    def loops(self):
+        return {0: Loop(inv=self._inv, modifies=lambda s, l: [s.W, s.S], snapshot=lambda s, l: dict(W=s.W.snap(), S=s.S.snap()))}
+
+    def ensures(self, s, result):
+        ups, waits = [e for e in s.S.log if e[0] == 'update'], s.W.events('wait_next')
+        if len(ups) != 1 or len(waits) != 1:
+            return [('exactly ONE wait_next and ONE update per iterate', z3.BoolVal(False))]
+        return iterate_post(self.kind, s.old.W, s.old.S, s.W, s.S, (ups[0][1], ups[0][2]))
+
+
+class Definitional(SamplerContract):
+    """_allow_submit / _has_batches_to_submit / finished / _objective_n_batches against their meaning on the view"""
+
+    def __init__(self, name, form='n_batches'):
+        self.name, self.form = name, form
+        self.target = PI + name
+        self.label = form if name == '_objective_n_batches' else None
+        self.cover = form != 'neither'            # raise-only case
+
+    def setup(self, vc):
+        W, S = self.base(vc, 'rejection')
+        me = sampler_object(vc, 'rejection', W, S, {})
+        s = NS(W=W, S=S, me=me)
+        if self.form == 'n_sim':
+            s.n_sim = vc.fresh_int('objective_n_sim', size=True)
+            me.objective = {'n_sim': SInt(s.n_sim)}
+        elif self.form == 'neither':
+            me.objective = {}
+        return s, (me,) + ((SInt(W.nxt),) if self.name == '_allow_submit' else ()), {}
+
+    def requires(self, s):
+        return handler_ok(s.W) + [T(s.me.batch_size) >= 1]
+
+    def raises(self, s):
+        return {'ValueError': z3.BoolVal(self.form == 'neither')}
+
+    def iff_raises(self, s):
+        return [('returns only if the objective defines n_batches or n_sim', z3.BoolVal(self.form != 'neither'))]
+
+    def ensures(self, s, result):
+        W, S, old = s.W, s.S, s.old.W
+        r = T(result)
+        if self.name == '_objective_n_batches':
+            if self.form == 'n_sim':
+                b = T(s.me.batch_size)
+                return [('ceil(n_sim / batch_size)', A(r * b >= s.n_sim, (r - 1) * b < s.n_sim))]
+            return [("objective['n_batches']", r == S.N)]
+        if self.name == 'finished':
+            return [('finished <=> objective n_batches <= consumed batches', r == (S.N <= S.nb))]
+        if self.name == '_has_batches_to_submit':
+            return [('objective n_batches > consumed + pending', r == (S.N > S.nb + (old.hi - old.lo)))]
+        asked = W.events('has_ready')
+        orc = asked[0][1] if asked else z3.BoolVal(False)
+        return [('submit is allowed only if fewer than max_parallel_batches are pending and the objective is not covered by consumed + pending; when both hold the answer is '
+                 'the negation of has_ready() if the handler was asked, True otherwise',
+                 r == A(S.M > old.hi - old.lo, S.N > S.nb + (old.hi - old.lo), z3.Not(has_ready_value(old, orc)))),
+                ('the client is asked at most once', z3.BoolVal(len(asked) <= 1))] + same_view(W, old, what='_allow_submit changes nothing: ')
+
+
+# ---------------------------------------------------------------------------------------------- infer
+def iterate_stub(kind, W, S):
+    def iterate(self_):
+        vc = cur()
+        vc.libcall('stub:iterate', ())
+        for n, f in iterate_pre(kind, W, S):
+            vc.oblige('call-pre[iterate: %s]' % n, f)
+        V0, S0 = W.snap(), S.snap()
+        W._vc_havoc('it')
+        S._vc_havoc('it')
+        b = vc.fresh('consumed_batch', Bat)
+        S.cons_n = S0.cons_n + 1
+        S.cons_idx, S.cons_bat = z3.Store(S0.cons_idx, S0.cons_n, S0.nb), z3.Store(S0.cons_bat, S0.cons_n, b)
+        for n, f in iterate_post(kind, V0, S0, W, S, (b, S0.nb)):
+            vc.assume(f)
+        if cur().fin is not None:
+            vc.assume(handler_ok(W)[2][1])
+        S.log.append(('iterate', V0, S0))
+    return iterate
+
+
+class Infer(SamplerContract):
+    """loop 0: `while not self.finished: self.iterate()`"""
+    target = PI + 'infer'
+
+    def __init__(self, kind, static_objective=False):
+        self.kind, self.static = kind, static_objective
+        self.label = kind + ('-objective-unchanged-by-update' if static_objective else '')
+
+    def setup(self, vc):
+        W, S = self.base(vc, self.kind)
+        kind = self.kind
+        s = NS(W=W, S=S, calls=[])
+
+        def set_objective(self_, *a, **kw):
+            vc.libcall('stub:set_objective', ())
+            s.calls.append(('set_objective', a, kw))
+            S.N = vc.fresh_int('objective', size=True)
+            if kind == 'rejection':
+                # Rejection.set_objective (C01/SetObjective): state reset, objective computed, batches.reset() called once
+                self_.state = S.state = {'n_batches': SInt(z3.IntVal(0)), 'round': S.state['round']}
+                self_.batches.reset()
+            else:
+                # SMC.set_objective: objective updated, _init_new_round() creates a new generator epoch; the handler is not touched
+                vc.oblige('call-pre[SMC.set_objective: no batch pending and next index = consumed batches (post of the previous infer / constructor)]',
+                          A(W.hi == W.lo, W.nxt == S.nb))
+                S.rnd, S.epoch, S.rs, S.calls = vc.fresh_int('round', size=True), S.epoch + 1, S.nb, z3.IntVal(0)
+                vc.assume(S.rnd >= 0)
+            s.c0 = S.nb
+            s.N0 = S.N
+            s.cons0 = S.cons_n
+            s.V1 = W.snap()
+
+        def extract_result(self_):
+            s.calls.append(('extract_result', W.snap(), S.snap()))
+            return 'RESULT'
+
+        def plot_state(self_, **kw):
+            s.calls.append(('plot_state',))
+        it = iterate_stub(kind, W, S)
+        if self.static:
+            it0 = it
+
+            def it(self_):
+                N = S.N
+                it0(self_)
+                vc.assume(S.N == N)           # premise of the lemma: update leaves the objective alone (C01/UpdateObjective[no-threshold])
+        s.me = sampler_object(vc, kind, W, S, dict(set_objective=set_objective, extract_result=extract_result, plot_state=plot_state, iterate=it))
+        s.arg = make_object('NSamples')
+        return s, (s.me, s.arg), {}
+
+    def requires(self, s):
+        smc = [('SMC.set_objective does not reset the handler: no batch pending and next index = consumed batches, as the constructor and every earlier infer leave it',
+                A(s.W.hi == s.W.lo, s.W.nxt == s.S.nb))] if self.kind == 'smc' else []
+        return handler_ok(s.W) + [('J', J(s.W)), s.S.M >= 1, s.S.nb >= 0] + smc
+
+    def _inv(self, s, l):
+        W, S = s.W, s.S
+        out = [('no more than max_parallel_batches pending; oldest pending index = consumed batches', A(W.hi - W.lo <= S.M, W.lo == S.nb, S.nb >= s.c0)),
+               ('tasks issued through this handler stay marked', forall_id(lambda x: z3.Implies(s.V1.mine[x], W.mine[x]))),
+               ('J', J(W))] + handler_ok(W) + \
+              [('finished or round discipline: ' + n, z3.Or(finished(S), f)) for n, f in discipline(self.kind, W, S)] + \
+              [('consumed = [(c0, B(c0)), (c0+1, B(c0+1)), ...]: one update per index, in order',
+                A(S.cons_n - s.cons0 == S.nb - s.c0, forall_range(0, S.nb - s.c0, lambda k: S.cons_idx[s.cons0 + k] == s.c0 + k, 'k')))]
+        if self.static:
+            out.append(('objective unchanged; consumed <= objective', A(S.N == s.N0, z3.Or(S.nb <= S.N, S.nb == s.c0))))
+        return out
+
+    @property
+    def loops(self):
+        return {0: Loop(inv=self._inv, modifies=lambda s, l: [s.W, s.S])}
+
+    def ensures(self, s, result):
+        W, S = s.W, s.S
+        names = [c[0] for c in s.calls]
+        out = [('set_objective first (with the caller\'s arguments), extract_result last, its value returned',
+                z3.BoolVal(names == ['set_objective', 'extract_result'] and s.calls[0][1] == (s.arg,) and result == 'RESULT'))]
+        if names != ['set_objective', 'extract_result']:
+            return out
+        Vx = s.calls[1][1]
+        out += [('inference returns finished', finished(S)),
+                ('no batch is pending when the result is extracted; the next index is the number of consumed batches', A(Vx.hi == Vx.lo, Vx.nxt == S.nb)),
+                ('no task submitted through this handler is left in the client when the result is extracted', forall_id(lambda x: z3.Implies(Vx.mine[x], z3.Not(Vx.live[x])))),
+                ('every task issued during the run is marked', forall_id(lambda x: z3.Implies(s.V1.mine[x], Vx.mine[x]))),
+                ('batches were consumed strictly in index order c0, c0+1, ..., each exactly once',
+                 A(S.cons_n - s.cons0 == S.nb - s.c0, forall_range(0, S.nb - s.c0, lambda k: S.cons_idx[s.cons0 + k] == s.c0 + k, 'k')))] + \
+            [('handler_ok at return: ' + n, f) for n, f in handler_ok(W)[:2]]
+        if self.static:
+            out.append(('LEMMA: when update leaves the objective alone exactly objective-many batches are consumed', S.nb == z3.If(s.N0 > s.c0, s.N0, s.c0)))
+        return out
+
+
+# ---------------------------------------------------------------------------------------------- the native client implements the abstract client contract
+Thunk = z3.DeclareSort('Thunk')
+RUN = z3.Function('RUN', Thunk, Bat)             # calling the stored kallable on the stored arguments
+AIT = z3.ArraySort(I, Thunk)
+
+
+class ThunkPart:
+    def __init__(self, th, what):
+        self.th, self.what = th, what
+
+    def __call__(self, *args, **kwargs):
+        okay = self.what == 'kallable' and len(args) == 1 and isinstance(args[0], ThunkPart) and args[0].what == 'arg' and args[0].th is self.th and not kwargs
+        cur().oblige('call-pre[the stored kallable is called on the stored arguments]', z3.BoolVal(okay))
+        if not okay:
+            raise OutOfSubset('stored task called differently')
+        cur().libcall('call:stored-task', self.th)
+        return SKey(RUN(self.th))
+
+
+class TaskDict(Sym):
+    """the python dict `Client.tasks`: id -> (kallable, args, kwargs); view has : id -> Bool, th : id -> Thunk"""
+
+    def __init__(self, vc):
+        self.has, self.th = vc.fresh('tasks_has', AIB), vc.fresh('tasks_thunk', AIT)
+        self.stored = []          # python values stored on this path: (key term, value)
+        self.t = None
+
+    def _tuple(self, k):
+        th = self.th[k]
+        return (ThunkPart(th, 'kallable'), (ThunkPart(th, 'arg'),), {})
+
+    def __setitem__(self, k, v):
+        k = T(k)
+        th = cur().fresh('thunk', Thunk)
+        self.stored.append((k, v, th))
+        self.has, self.th = z3.Store(self.has, k, True), z3.Store(self.th, k, th)
+
+    def __getitem__(self, k):
+        k = T(k)
+        cur().oblige('call-pre[dict[key]: key present (KeyError otherwise)]', self.has[k])
+        return self._tuple(k)
+
+    def pop(self, k, *default):
+        k = T(k)
+        if default:
+            raise OutOfSubset('dict.pop with default')
+        cur().oblige('call-pre[dict.pop: key present (KeyError otherwise)]', self.has[k])
+        r = self._tuple(k)
+        self.has = z3.Store(self.has, k, False)
+        return r
+
+    def __contains__(self, k):
+        return cur().branch(self.has[T(k)])
+
+    def __delitem__(self, k):
+        k = T(k)
+        cur().oblige('call-pre[del dict[key]: key present (KeyError otherwise)]', self.has[k])
+        self.has = z3.Store(self.has, k, False)
+
+    def clear(self):
+        self.has = z3.K(I, z3.BoolVal(False))
+
+
+class CountProxy:
+    """itertools.count(): __next__ returns c, c+1, ..."""
+
+    def __init__(self, c):
+        self.c = c
+
+    def __next__(self):
+        r = self.c
+        self.c = self.c + 1
+        return SInt(r)
+
+
+class NativeClient(Contract):
+    """elfi/clients/native.py::Client against the abstract client contract on the view tasks: id -> thunk.
+    Representation invariant client_ok: every id in the table is below the counter (so the counter value is fresh)."""
+    prop = 'C04'
+    fin = 4
+    fin_range = 6
+
+    def __init__(self, name):
+        self.name = name
+        self.target = 'elfi/clients/native.py::Client.%s' % name
+
+    def setup(self, vc):
+        tasks = TaskDict(vc)
+        c = vc.fresh_int('next_id', size=True)
+        me = make_object('NativeClientUnderContract', attrs=dict(tasks=tasks, _ids=CountProxy(c)))
+        s = NS(me=me, tasks=tasks, c0=c, has0=tasks.has, th0=tasks.th, calls=[])
+        s.x = vc.fresh_int('task_id', size=True)
+        if self.name in ('apply', 'apply_sync'):
+            s.a1, s.a2 = make_object('Arg1'), make_object('Arg2')
+
+            def kallable(*a, **kw):
+                s.calls.append((a, kw))
+                return 'RESULT-OF-CALL'
+            s.kallable = kallable
+            return s, (me, kallable, s.a1), dict(extra=s.a2)
+        if self.name in ('reset', 'num_cores'):
+            return s, (me,), {}
+        return s, (me, SInt(s.x)), {}
+
+    def _ok(self, has, c):
+        return forall_id(lambda x: z3.Implies(has[x], A(0 <= x, x < c)))
+
+    def requires(self, s):
+        r = [s.c0 >= 0, ('client_ok', self._ok(s.has0, s.c0))]
+        if self.name == 'get_result':
+            r.append(('abstract pre: the task is in the client', s.has0[s.x]))
+        return r
+
+    def ensures(self, s, result):
+        t, n = s.tasks, self.name
+        ok = ('client_ok re-established', self._ok(t.has, s.me._ids.c))
+        if n == 'apply':
+            st = t.stored
+            return [('returns a FRESH id', A(z3.Not(s.has0[T(result)]), T(result) == s.c0)),
+                    ('the task table gains exactly that id', t.has == z3.Store(s.has0, T(result), True)),
+                    ('... holding (kallable, args, kwargs) as given; nothing is executed yet',
+                     z3.BoolVal(len(st) == 1 and st[0][1][0] is s.kallable and st[0][1][1] == (s.a1,) and st[0][1][2] == {'extra': s.a2} and not s.calls)
+                     if not (len(st) == 1) else A(st[0][0] == T(result), z3.BoolVal(st[0][1][0] is s.kallable and st[0][1][1] == (s.a1,) and st[0][1][2] == {'extra': s.a2} and not s.calls))),
+                    ('other tasks untouched', forall_id(lambda x: z3.Implies(x != T(result), t.th[x] == s.th0[x]))), ok]
+        if n == 'apply_sync':
+            return [('calls kallable(*args, **kwargs) once and returns its result', z3.BoolVal(s.calls == [((s.a1,), {'extra': s.a2})] and result == 'RESULT-OF-CALL')),
+                    ('the task table is untouched', A(t.has == s.has0, t.th == s.th0)), ok]
+        if n == 'get_result':
+            ran = cur().libcalls.get('call:stored-task', [])
+            return [('returns the result of the thunk stored under the id (run once)', A(T(result) == RUN(s.th0[s.x]), z3.BoolVal(len(ran) == 1))),
+                    ('the task leaves the table, nothing else changes', A(t.has == z3.Store(s.has0, s.x, False), t.th == s.th0)), ok]
+        if n == 'is_ready':
+            return [('answers a Boolean (the lazy client: always True) without touching the table', A(T(result) == z3.BoolVal(True), t.has == s.has0, t.th == s.th0)), ok]
+        if n == 'remove_task':
+            return [('the id is not in the table afterwards, nothing else changes (absent ids are tolerated)', A(t.has == z3.Store(s.has0, s.x, False), t.th == s.th0)), ok]
+        if n == 'reset':
+            return [('the table is empty', forall_id(lambda x: z3.Not(t.has[x]))), ok]
+        if n == 'num_cores':
+            return [('one core', T(result) == 1)]
+        raise OutOfSubset(n)
+
+
+class ClientBaseGlue(HandlerContract):
+    """ClientBase.submit / compute are apply / apply_sync of Executor.execute on the loaded net"""
+
+    def __init__(self, name):
+        self.name = name
+        self.target = 'elfi/client.py::ClientBase.%s' % name
+
+    def setup(self, vc):
+        W, h = self.world(vc)
+        s = NS(W=W, h=h, netobj=NetObj(vc.fresh_int('batch_index', size=True)))
+        return s, (h.client, s.netobj), {}
+
+    def ensures(self, s, result):
+        W = s.W
+        ev = W.events('apply' if self.name == 'submit' else 'apply_sync')
+        return [('one %s(Executor.execute, loaded_net); its value is returned' % ('apply' if self.name == 'submit' else 'apply_sync'),
+                 z3.BoolVal(len(ev) == 1 and (ev[0][2] if self.name == 'submit' else ev[0][1]) is s.netobj) if len(ev) != 1 else
+                 (T(result) == ev[0][1] if self.name == 'submit' else T(result) == EXEC(LOADED(s.netobj.index, NONE_OV))))]
+
+
+# ---------------------------------------------------------------------------------------------- SMC round discipline (real bodies)
+SMCQ = 'elfi/methods/inference/samplers.py::SMC.'
+
+
+class RoundGen:
+    """numpy RandomState created by _set_rejection_round: ghost epoch (which creation) and calls (draw calls so far)"""
+
+    def __init__(self, epoch, seed=None):
+        self.epoch, self.seed, self.calls = epoch, seed, z3.IntVal(0)
+
+
+class SmcBase(Contract):
+    prop = 'C04'
+    fin = 4
+    fin_range = 7
+
+    def smc_object(self, vc, s, W=None, quantiles=False, extra_methods=None, inline_rounds=True):
+        """an SMC `self`: fields as the real code uses them; helper methods are the REAL bodies unless stubbed"""
+        s.events = []
+        s.gen0 = RoundGen(vc.fresh_int('epoch', size=True))
+        s.gen0.calls = vc.fresh_int('calls', size=True)
+        s.seed = vc.fresh_int('seed', size=True)
+        s.rej_made = []
+
+        def rec(name, ret=None):
+            def f(self_, *a, **kw):
+                s.events.append((name, a, kw, W.snap() if W is not None else None))
+                return ret
+            return f
+        methods = dict(_update_round_info=rec('_update_round_info'), _set_threshold=rec('_set_threshold'))
+        if inline_rounds:
+            methods.update(_init_new_round=inline(vc, SMCQ + '_init_new_round'), _set_rejection_round=inline(vc, SMCQ + '_set_rejection_round'))
+        methods.update(extra_methods or {})
+        s.THR = make_object('CurrentPopulationThreshold')
+        me = make_object('SMCUnderContract', methods=methods, properties=dict(seed=lambda self_: SInt(s.seed), current_population_threshold=lambda self_: s.THR))
+        me.model, me.discrepancy_name, me.output_names = make_object('Model'), make_object('DiscrepancyName'), make_object('OutputNames')
+        me.batch_size, me.max_parallel_batches = SInt(vc.fresh_int('batch_size', size=True)), SInt(vc.fresh_int('max_parallel_batches', size=True))
+        me.bar = True
+        me._round_random_state = s.gen0
+        s.q0 = make_object('Quantile0')
+        me._quantiles = [s.q0, make_object('Quantile1')] if quantiles else None
+        s.n_samples = make_object('NSamples')
+        s.me = me
+        return me
+
+    def env(self, vc):
+        from pyvc import npspec
+        s = self._s
+
+        def RandomState(seed=None):
+            g = RoundGen(s.gen0.epoch + 1 + len([e for e in s.events if e[0] == 'RandomState']), seed)
+            s.events.append(('RandomState', g, T(s.me.state['n_batches']) if 'n_batches' in s.me.state else None, s.W.snap() if s.get('W') is not None else None))
+            return g
+
+        def get_sub_seed(seed, index, **kw):
+            s.events.append(('get_sub_seed', seed, index))
+            return SInt(SUBSEED(T(seed), T(index)))
+
+        class RejectionStub:
+            def __init__(self_, model, **kw):
+                self_.args, self_.kw = (model,), kw
+                self_.objective = {'n_batches': SInt(vc.fresh_int('rejection_objective', size=True))}
+                self_.state = {'n_batches': SInt(z3.IntVal(0))}
+                s.rej_made.append(self_)
+                s.events.append(('Rejection', self_))
+
+            def set_objective(self_, *a, **kw):
+                s.events.append(('Rejection.set_objective', self_, a, kw))
+        rnd = type('random', (), {'RandomState': staticmethod(RandomState)})
+        return dict(np=npspec.module(extra={'random': rnd}), get_sub_seed=get_sub_seed, Rejection=RejectionStub,
+                    super=lambda cls, obj: obj._vc_super(), SMC=object())
+
+
+SUBSEED = z3.Function('SUBSEED', I, I, I)
+
+
+class SetRejectionRound(SmcBase):
+    target = SMCQ + '_set_rejection_round'
+
+    def setup(self, vc):
+        self._s = s = NS()
+        me = self.smc_object(vc, s)
+        s.r = vc.fresh_int('round', size=True)
+        me.state = {'round': SInt(s.r)}
+        me.objective = {'round': SInt(vc.fresh_int('objective_round', size=True))}
+        return s, (me, SInt(s.r)), {}
+
+    def requires(self, s):
+        return [s.r >= 0]
+
+    def ensures(self, s, result):
+        me = s.me
+        g, rj = me._round_random_state, s.rej_made
+        new_gen = [e for e in s.events if e[0] == 'RandomState']
+        if not (len(new_gen) == 1 and new_gen[0][1] is g and len(rj) == 1 and me._rejection is rj[0]):
+            return [('exactly one new round generator and one new Rejection are created and stored', z3.BoolVal(False))]
+        seed_r = z3.If(s.r == 0, s.seed, SUBSEED(s.seed, s.r))
+        kw = rj[0].kw
+        return [('the round generator is re-created from the seed of the round: the master seed in round 0, get_sub_seed(seed, round) otherwise', T(g.seed) == seed_r),
+                ('the round\'s Rejection runs the same model and outputs with the same batch_size, max_parallel_batches and the seed of the round',
+                 A(z3.BoolVal(rj[0].args == (me.model,) and set(kw) == {'discrepancy_name', 'output_names', 'batch_size', 'seed', 'max_parallel_batches'}
+                              and kw['discrepancy_name'] is me.discrepancy_name and kw['output_names'] is me.output_names
+                              and kw['batch_size'] is me.batch_size and kw['max_parallel_batches'] is me.max_parallel_batches), T(kw['seed']) == seed_r))]
+
+
+class InitNewRound(SmcBase):
+    target = SMCQ + '_init_new_round'
+
+    def __init__(self, quantiles):
+        self.quantiles = quantiles
+        self.label = 'quantiles' if quantiles else 'thresholds'
+
+    def setup(self, vc):
+        self._s = s = NS()
+        me = self.smc_object(vc, s, quantiles=self.quantiles, extra_methods=dict(
+            _set_rejection_round=lambda self_, r: (s.events.append(('_set_rejection_round', T(r))), setattr(self_, '_rejection', RejMarker(s)))[0]),
+            inline_rounds=False)
+        s.r = vc.fresh_int('round', size=True)
+        me.state = {'round': SInt(s.r)}
+        me.objective = {'n_samples': s.n_samples}
+        return s, (me,), {}
+
+    def requires(self, s):
+        return [s.r >= 0]
+
+    def ensures(self, s, result):
+        names = [e[0] for e in s.events]
+        first = self.quantiles is True
+        out = [('the round generator / Rejection are re-created for the current round first', z3.BoolVal(names[:1] == ['_set_rejection_round']) if names[:1] != ['_set_rejection_round'] else s.events[0][1] == s.r)]
+        so = [e for e in s.events if e[0] == 'Rejection.set_objective']
+        if len(so) != 1:
+            return out + [('the new Rejection gets its objective exactly once', z3.BoolVal(False))]
+        a, kw = so[0][2], so[0][3]
+        if self.quantiles:
+            q0 = a == (s.n_samples,) and set(kw) == {'quantile'} and kw['quantile'] is s.q0 and '_set_threshold' not in names
+            later = a == (s.n_samples,) and set(kw) == {'threshold'} and kw['threshold'] is s.THR and names == ['_set_rejection_round', '_set_threshold', 'Rejection.set_objective']
+            out.append(('quantile mode: round 0 samples with the first quantile; later rounds first select the threshold from the previous population',
+                        z3.If(s.r == 0, z3.BoolVal(q0), z3.BoolVal(later))))
+        else:
+            out.append(('threshold mode: the new Rejection samples n_samples under the current population threshold',
+                        z3.BoolVal(a == (s.n_samples,) and set(kw) == {'threshold'} and kw['threshold'] is s.THR and '_set_threshold' not in names)))
+        return out
+
+
+class RejMarker:
+    def __init__(self, s):
+        self.s = s
+
+    def set_objective(self, *a, **kw):
+        self.s.events.append(('Rejection.set_objective', self, a, kw))
+
+
+class SmcUpdate(SmcBase):
+    """SMC.update with the REAL _init_new_round / _set_rejection_round / _update_objective / ParameterInference.update inlined.
+    `earlier` = number of populations already stored (the list is concrete: 0 or 2)"""
+    target = SMCQ + 'update'
+
+    def __init__(self, earlier):
+        self.earlier = earlier
+        self.label = '%d-earlier-populations' % earlier
+
+    def setup(self, vc):
+        self._s = s = NS()
+        W = World(vc)
+        real_handler(vc, W, stubs=handler_stubs(W))
+        s.W = W
+        base_update = inline(vc, PI + 'update')
+
+        def extract_population(self_):
+            s.events.append(('_extract_population', self_._rejection, W.snap()))
+            return make_object('Population', attrs=dict(n_batches=self_._rejection.state['n_batches']))
+        me = self.smc_object(vc, s, W=W, extra_methods=dict(
+            _vc_super=lambda self_: make_object('ParameterInferenceBase', methods=dict(update=lambda b_, batch, i: (s.events.append(('base.update', batch, i)), base_update(self_, batch, i))[1])),
+            _extract_population=extract_population, _update_objective=inline(vc, SMCQ + '_update_objective')))
+        s.nb, s.ns, s.r, s.R, s.N = (vc.fresh_int(n, size=True) for n in ('n_batches', 'n_sim', 'round', 'objective_round', 'objective_n_batches'))
+        me.state = {'n_batches': SInt(s.nb), 'n_sim': SInt(s.ns), 'round': SInt(s.r)}
+        me.objective = {'n_batches': SInt(s.N), 'round': SInt(s.R), 'n_samples': s.n_samples}
+        me.batches = W.handler
+        s.pops = [make_object('Population', attrs=dict(n_batches=SInt(vc.fresh_int('pop_n_batches', size=True)))) for _ in range(self.earlier)]
+        me._populations = list(s.pops)
+        s.rej_fin = vc.fresh('rejection_finished_after_update', B)
+        s.rnb, s.rN = vc.fresh_int('rejection_n_batches', size=True), vc.fresh_int('rejection_objective_after_update', size=True)
+
+        class Rej0:
+            state = {'n_batches': SInt(s.rnb)}
+            objective = {'n_batches': SInt(vc.fresh_int('rejection_objective', size=True))}
+
+            def update(self_, batch, i):
+                s.events.append(('rejection.update', batch, i))
+                self_.state = {'n_batches': SInt(s.rnb + 1)}          # C01/BaseUpdate
+                self_.objective = {'n_batches': SInt(s.rN)}            # C01/UpdateObjective
+            finished = property(lambda self_: SBool(s.rej_fin))
+        s.rej0 = me._rejection = Rej0()
+        s.batch, s.idx = make_object('Batch'), SInt(s.nb)
+        return s, (me, s.batch, s.idx), {}
+
+    def requires(self, s):
+        ps = sum([T(p.n_batches) for p in s.pops], z3.IntVal(0))
+        return handler_ok(s.W) + [('J', J(s.W)), s.nb >= 0, s.r >= 0, s.rnb >= 0,
+                                  ('accounting: consumed batches = batches of the stored populations + batches of the running round', s.nb == ps + s.rnb),
+                                  ('finished of the round\'s Rejection is its real definition (objective <= consumed)', s.rej_fin == (s.rN <= s.rnb + 1)),
+                                  ('called from iterate: index = consumed batches = oldest pending index after wait_next', s.W.lo == s.nb + 1)]
+
+    def snapshot(self, s):
+        return dict(W=s.W.snap())
+
+    def ensures(self, s, result):
+        W, old, me = s.W, s.old.W, s.me
+        ev = s.events
+        names = [e[0] for e in ev]
+        gens = [e for e in ev if e[0] == 'RandomState']
+        cancels = W.events('cancel_pending')
+        more = A(s.rej_fin, s.r < s.R)
+        E = old.snap()
+        eff_cancel(E)
+        nb1 = T(me.state['n_batches'])
+        out = [('the base update and the round\'s Rejection.update run first, once each, on the consumed batch and index',
+                z3.BoolVal(names[:2] == ['base.update', 'rejection.update'] and names.count('base.update') == 1 and names.count('rejection.update') == 1
+                           and ev[0][1] is s.batch and ev[0][2] is s.idx and ev[1][1] is s.batch and ev[1][2] is s.idx)),
+               ('one more consumed batch', nb1 == s.nb + 1),
+               ('nothing is submitted inside update', z3.BoolVal(not W.events('submit') and not W.events('wait_next'))),
+               ('round not over: handler, client and round generator untouched', z3.Implies(z3.Not(s.rej_fin), A(z3.BoolVal(not cancels and not gens and me._round_random_state is s.gen0), *facts(same_view(W, old))))),
+               ('round over: every pending (speculative) batch is cancelled - the view is eff_cancel of the old one', z3.Implies(s.rej_fin, A(z3.BoolVal(len(cancels) == 1), *facts(same_view(W, E))))),
+               ('the round generator is re-created exactly when the round is over and more rounds follow', z3.BoolVal(len(gens) == 1 and me._round_random_state is gens[0][1]) == more
+                if len(gens) <= 1 else z3.BoolVal(False)),
+               ('whenever the generator was re-created the index is rewound when update returns: no batch pending, next index = consumed batches (= round_start of the new epoch)',
+                z3.Implies(more, A(W.hi == W.lo, W.nxt == nb1, (gens[0][2] == nb1) if gens else z3.BoolVal(False)))),
+               ('a new round: the population is extracted from the finished Rejection before the generator is re-created, round + 1',
+                z3.Implies(more, A(z3.BoolVal('_extract_population' in names and 'RandomState' in names and names.index('_extract_population') < names.index('RandomState')
+                                              and [e for e in ev if e[0] == '_extract_population'][0][1] is s.rej0 and len(me._populations) == self.earlier + 1),
+                                   T(me.state['round']) == s.r + 1))),
+               ('otherwise the round and the stored populations stay', z3.Implies(z3.Not(more), A(T(me.state['round']) == s.r, z3.BoolVal(len(me._populations) == self.earlier or len(gens) == 1)))),
+               ('the last round over: inference is finished', z3.Implies(A(s.rej_fin, z3.Not(s.r < s.R)), T(me.objective['n_batches']) <= nb1)),
+               ('J preserved', J(W))] + [('handler_ok preserved: ' + n, f) for n, f in handler_ok(W)[:2]]
+        return out
+
+
+class PrepareNewBatch(SmcBase):
+    target = SMCQ + 'prepare_new_batch'
+
+    def setup(self, vc):
+        self._s = s = NS()
+        s.gm = (make_object('Means'), make_object('Cov'), make_object('Weights'))
+        def logpdf(self_, x):
+            raise OutOfSubset('the prior density is not evaluated here')
+        s.prior = make_object('ModelPrior', methods=dict(logpdf=logpdf))
+        me = self.smc_object(vc, s, inline_rounds=False)
+        type(me)._gm_params = property(lambda self_: s.gm)
+        me._prior, me.parameter_names = s.prior, make_object('ParameterNames')
+        s.r = vc.fresh_int('round', size=True)
+        me.state = {'round': SInt(s.r)}
+        s.calls0 = s.gen0.calls
+        return s, (me, SInt(vc.fresh_int('batch_index', size=True))), {}
+
+    def env(self, vc):
+        e = SmcBase.env(self, vc)
+        s = self._s
+
+        class GMDistribution:
+            @classmethod
+            def rvs(cls, *params, size=1, prior_logpdf=None, random_state=None):
+                okay = (params == s.gm and size is s.me.batch_size and random_state is s.gen0 and getattr(prior_logpdf, '__self__', None) is s.prior
+                        and getattr(prior_logpdf, '__name__', '') == 'logpdf')
+                vc.oblige('call-pre[GMDistribution.rvs: proposal of the last population, batch_size points, conditioned on the prior, drawn from THE round generator]', z3.BoolVal(okay))
+                k = random_state.calls
+                random_state.calls = random_state.calls + 1
+                s.events.append(('rvs', k))
+                return ('params', random_state.epoch, k)
+
+        def arr2d_to_batch(params, names):
+            vc.oblige('call-pre[arr2d_to_batch: the drawn points under the parameter names]', z3.BoolVal(isinstance(params, tuple) and params[0] == 'params' and names is s.me.parameter_names))
+            return OvVal(PROPOSAL(params[1], params[2]))       # DEFINITION of PROPOSAL(epoch, k)
+        e.update(GMDistribution=GMDistribution, arr2d_to_batch=arr2d_to_batch)
+        return e
+
+    def requires(self, s):
+        return [s.r >= 0, s.calls0 >= 0]
+
+    def ensures(self, s, result):
+        draws = [e for e in s.events if e[0] == 'rvs']
+        if result is None:
+            return [('round 0 uses the prior: no override, the round generator is not touched', A(s.r == 0, z3.BoolVal(not draws), s.gen0.calls == s.calls0))]
+        if not isinstance(result, OvVal):
+            return [('returns an override dict', z3.BoolVal(False))]
+        return [('later rounds: the override is the calls-th proposal of the current generator epoch; exactly one draw call per prepared batch',
+                 A(s.r != 0, result.t == PROPOSAL(s.gen0.epoch, s.calls0), z3.BoolVal(len(draws) == 1), s.gen0.calls == s.calls0 + 1)),
+                ('the generator object itself is not replaced', z3.BoolVal(s.me._round_random_state is s.gen0))]
+
+
 CONTRACTS = [Submit('none'), Submit('empty'), Submit('overrides'), WaitNext(), CancelPending(), Reset(), HasReady()] + \
-    [Counters(n) for n in ('next_index', 'total', 'num_pending', 'num_ready', 'has_pending', 'pending_indices')] + [Compute()]
+    [Counters(n) for n in ('next_index', 'total', 'num_pending', 'num_ready', 'has_pending', 'pending_indices')] + [Compute()] + \
+    [Definitional('_allow_submit'), Definitional('_has_batches_to_submit'), Definitional('finished'), Definitional('_objective_n_batches', 'n_batches'),
+     Definitional('_objective_n_batches', 'n_sim'), Definitional('_objective_n_batches', 'neither'),
+     Iterate('rejection'), Iterate('smc'), Infer('rejection'), Infer('smc'), Infer('rejection', True)] + \
+    [NativeClient(n) for n in ('apply', 'apply_sync', 'get_result', 'is_ready', 'remove_task', 'reset', 'num_cores')] + [ClientBaseGlue('submit'), ClientBaseGlue('compute')] + \
+    [SmcUpdate(0), SmcUpdate(2), PrepareNewBatch(), InitNewRound(False), InitNewRound(True), SetRejectionRound()] + \
+    [HandlerInit(True), HandlerInit(False), SamplerInit(True), SamplerInit(False)]
+
+for _c in CONTRACTS:
+    if not hasattr(type(_c), 'witness'):
+        type(_c).witness = _witness
+
+TRUSTED_BASE = ['pyvc engine: proxies, loop cutting, decision-prefix path exploration, inlining of real helper bodies',
+                'collections.OrderedDict proxy ODictRange (contiguous-range view): new key appended at the end, existing key keeps its position, popitem(last=False) pops the first / '
+                'popitem() the last item, pop(key), len, truthiness, keys()/items() in insertion order, list(items()) is a snapshot, reversed(list) (sanity-tested each run)',
+                'python dict proxy TaskDict and itertools.count proxy for the native client (sanity-tested)',
+                'z3 array theory with lambda terms (eff_cancel is stated as a lambda array)',
+                'Executor.execute(net) and ClientBase.load_data(compiled_net, context, i) are functions of their arguments (EXEC, LOADED uninterpreted; their determinism is C02/C03)']
+ASSUMPTIONS = ['A-INT', 'A-LOG: logging / progress-bar calls have no effect (dropped by the front end)',
+               'abstract client contract: apply returns an id that is not in the task table; get_result(id) returns the result of the net stored under id and removes it; '
+               'is_ready(id) returns ANY Boolean (uninterpreted oracle, fresh per call); remove_task(id) removes; proved for the native client, ASSUMED for the process-pool clients',
+               'update() touches the handler only through cancel_pending (Rejection.update: not at all - C01/RejectionUpdate runs it on a self without a handler; SMC.update: proved here)',
+               'prepare_new_batch() does not touch the handler (base class: real body inlined; SMC: proved here on a self without a handler); other subclasses (BOLFI, ROMC, BSL) are C11 / out of C04',
+               'Rejection.set_objective resets state and handler (C01/SetObjective + BatchHandler.reset here); SMC.set_objective creates a new generator epoch and does not touch the handler (its numpy body is C07)',
+               'SMC.update: the list of earlier populations is concrete (0 and 2 entries) - the sum in _update_objective runs natively over it',
+               'GMDistribution.rvs / arr2d_to_batch are functions of (generator state, arguments): PROPOSAL(epoch, k) (C13); the round generator is advanced by nothing but prepare_new_batch',
+               'composition (paper step): iterate/infer posts + C01 update contracts => the sequence of update calls, hence the Sample, is a function of (model, seed, objective); '
+               'in threshold mode objective[n_batches] itself depends on max_parallel_batches - only the stop decision (C01/UpdateObjective: finished <=> n_samples acceptable) does not, '
+               'and nothing here demands equal objectives across max_parallel_batches']
+NOT_PROVED = ['multiprocessing / ipyparallel / dask clients satisfy the abstract client contract (OS processes, pickling, Pool.apply_async): not decidable here; assumed',
+              'real timing ("whatever the ... timing in which the client\'s workers finish batches"): only the answers ELFI can observe (is_ready) are quantified over',
+              'thread safety of handler / client when driven from several threads',
+              '"every execution order of outstanding tasks" inside worker processes: covered only by the bounded stand-in (eager scheduled client) and by purity of EXEC (C02/C03)',
+              'BatchHandler.has_ready(any=True) (not used anywhere in the tree)',
+              'equality of whole Sample objects across schedules: induction over the consumed sequence is a paper step; checked end to end only by the bounded stand-in']
+
+
+def sanity():
+    import itertools
+    from collections import OrderedDict
+    out = []
+    d = OrderedDict()
+    d[3] = 'a'
+    d[4] = 'b'
+    d[5] = 'c'
+    out.append(('OrderedDict keeps insertion order', list(d.items()) == [(3, 'a'), (4, 'b'), (5, 'c')] and list(d.keys()) == [3, 4, 5]))
+    d[4] = 'B'
+    out.append(('assignment to an existing key keeps its position', list(d.items()) == [(3, 'a'), (4, 'B'), (5, 'c')]))
+    out.append(('popitem(last=False) pops the first item', d.popitem(last=False) == (3, 'a') and list(d) == [4, 5]))
+    out.append(('popitem() pops the last item', d.popitem() == (5, 'c') and list(d) == [4]))
+    d[5] = 'c'
+    d[6] = 'd'
+    seen = []
+    for k, v in reversed(list(d.items())):
+        seen.append(k)
+        d.pop(k)
+    out.append(('reversed(list(items())) is a snapshot, newest first; pop(key) removes', seen == [6, 5, 4] and len(d) == 0 and not d))
+    d[9] = 'x'
+    out.append(('a new key in an emptied map starts a new order', list(d) == [9] and len(d.keys()) == 1))
+    c = itertools.count()
+    out.append(('itertools.count().__next__ counts from 0', [c.__next__(), c.__next__(), c.__next__()] == [0, 1, 2]))
+    t = {1: 'a'}
+    out.append(('dict.pop removes and returns; `in` / del / clear', t.pop(1) == 'a' and 1 not in t and not t))
+    return out
+
+
+def bounded(tier, seed):
+    from bounded import c04 as b
+    return [b.run(tier, seed), b.run_native(tier, seed)]
+
+
+_replay_cache = {}
+
+
+def replay_refuted(cname, rf):
+    """a refuted obligation: look for a failing schedule of the executable property on the real samplers (or, for the native client, a failing operation sequence)"""
+    from bounded import c04 as b
+    key = 'native' if cname.startswith('Client.') else 'sched'
+    if key not in _replay_cache:
+        r = b.run_native('quick', 0) if key == 'native' else b.run('quick', 0, stop_first=True)
+        _replay_cache[key] = dict(found=True, input=r['failures'][0]['input'], observed=r['failures'][0]['what']) if r['failures'] else \
+            dict(found=False, searched=r['bound'], cases=r['cases'])
+    return _replay_cache[key]
+
+
+def replay_input(inp):
+    from bounded import c04 as b
+    return b.replay_input(inp)
